@@ -275,7 +275,22 @@ pub fn add_tail_pair(r: &mut Rng) -> (u128, u128) {
     if r.chance(1, 2) { (x, y) } else { (y, x) }
 }
 
+/// Pairs whose exponent sum (`sum = true`) or difference sits exactly at / next to the clamp boundaries of the
+/// quantum exponent (emin-1, emin, emin+1, emax-1, emax, emax+1, emax+33, emax+34); one operand is often a zero, so the
+/// preferred exponent of an exact zero result has to be clamped.
+pub fn clamp_boundary_pair(r: &mut Rng, sum: bool) -> (u128, u128) {
+    let target = *r.pick(&[EMIN - 2, EMIN - 1, EMIN, EMIN + 1, EMAX - 1, EMAX, EMAX + 1, EMAX + 2, EMAX + 33, EMAX + 34, EMAX + 35]);
+    let e1 = r.range(EMIN as i64, EMAX as i64) as i32;
+    let e2 = if sum { target - e1 } else { e1 - target };
+    if e2 < EMIN || e2 > EMAX { return clamp_boundary_pair(r, sum); }
+    let c1 = match r.below(3) { 0 => 0, 1 => coeff_upto(r, 3), _ => coeff_upto(r, 34) };
+    let c2 = match r.below(3) { 0 => 0, 1 => coeff_upto(r, 3), _ => coeff_upto(r, 34) };
+    let (a, b) = (enc(r.chance(1, 2), c1, e1), enc(r.chance(1, 2), c2, e2));
+    if sum && r.chance(1, 2) { (b, a) } else { (a, b) }
+}
+
 pub fn mul_pair(r: &mut Rng) -> (u128, u128) {
+    if r.chance(1, 10) { return clamp_boundary_pair(r, true); }
     match r.below(8) {
         6 | 7 => { let (x, y, _) = fma_subnormal_product_triple(r); (x, y) }
         0 => { // products that end exactly on a tie
@@ -303,6 +318,7 @@ pub fn mul_pair(r: &mut Rng) -> (u128, u128) {
 }
 
 pub fn div_pair(r: &mut Rng) -> (u128, u128) {
+    if r.chance(1, 10) { return clamp_boundary_pair(r, false); }
     match r.below(7) {
         0 => { // exact ties and short exact quotients
             let c1 = coeff_upto(r, 34);
